@@ -730,6 +730,7 @@ func (ch *Channel) addConnectionToPeer(hostPort string, c *Connection, direction
 			ErrField(err),
 		).Warn("Failed to add connection to peer.")
 	}
+	verifPoint("chan.addConnectionToPeer.done", c.connID)
 
 	ch.updatePeer(p)
 }
